@@ -25,6 +25,9 @@ type c19Case struct {
 	CRLF    bool      `json:"crlf,omitempty"`
 	Choices []int     `json:"choices,omitempty"`
 	Track   [][]ref.F `json:"track,omitempty"` // lon lat alt unix per fix
+	// Zone (track mode): the offset in seconds of the process's local time zone (time.Local) while
+	// the track is written and read; the format's times are UTC whatever the zone of the machine.
+	Zone int `json:"zone,omitempty"`
 }
 
 // JSON form of a case: lines that are not valid UTF-8 are stored as bytes (see splitText).
@@ -389,6 +392,38 @@ func c19Run(c *engine.Ctx) {
 			}
 		}
 	})
+	// (B2) the other record types that carry fields: every truncation, every single-byte deletion,
+	// every single-byte substitution and every single-byte insertion (over a 12-byte menu of digits,
+	// letters, the separators ',' ':' ' ' '-', and bytes outside ASCII) of date headers in both
+	// spellings, other headers and extension tables, followed by a fix
+	hMenu := []byte{'0', '9', 'A', 'x', ',', ':', ' ', '-', '.', 0x00, 0x80, 0xff}
+	hLines := []string{"HFDTE150785", "HFDTEDATE:150785,01", "HFDTEDATE:290224", "HFPLTPILOTINCHARGE:Jane Doe", "HFFXA035", "I013637LAD", "I023637LAD3839LOD", "I033638FXA3940SIU4143ENL"}
+	c.Parallel(len(hLines), func(i int) {
+		valid := hLines[i]
+		pre := []string{"AXXX001"}
+		if valid[0] == 'I' {
+			pre = append(pre, "HFDTE150785")
+		}
+		after := []string{"B1101015206343N00006198WA0058700558123456789", "B1101025206344N00006199WA0058800559123456789"}
+		try := func(line string) {
+			c.Count("header_mutations", 1)
+			c19Exec(c, c19Case{Mode: "lines", Lines: append(append(append([]string{}, pre...), line), after...)}, note)
+		}
+		for n := 0; n <= len(valid); n++ {
+			try(valid[:n])
+		}
+		for col := 0; col < len(valid); col++ {
+			try(valid[:col] + valid[col+1:])
+			for _, ch := range hMenu {
+				if valid[col] != ch {
+					b := []byte(valid)
+					b[col] = ch
+					try(string(b))
+				}
+				try(valid[:col] + string([]byte{ch}) + valid[col:])
+			}
+		}
+	})
 	c.Count("states", int64(len(seen)))
 	// (C) the scanner must not depend on how the reader splits the bytes
 	c19Exec(c, c19Case{Mode: "split", Lines: []string{"AXXX001", "HFDTE150785", "I013637LAD", "B1101015206343N00006198WA005870055812", "B1101025206344N00006199WA005880055934", "LXXX"}, CRLF: true}, nil)
@@ -513,6 +548,18 @@ func c19Run(c *engine.Ctx) {
 	}
 	c.Note("tracks", len(tracks))
 	c.Parallel(len(tracks), func(i int) { c19Exec(c, c19Case{Mode: "track", Track: tracks[i]}, nil) })
+	// the same tracks on a machine whose local time zone is not UTC (+5:45 and -9:30: a zone with
+	// minutes shifts the date for some fixes and the minute for all of them)
+	savedLocal := time.Local
+	for _, zone := range []int{20700, -34200} {
+		zone := zone
+		time.Local = time.FixedZone("verif", zone)
+		c.Parallel(len(tracks), func(i int) {
+			c.Count("tracks_in_another_zone", 1)
+			c19Exec(c, c19Case{Mode: "track", Track: tracks[i], Zone: zone}, nil)
+		})
+	}
+	time.Local = savedLocal
 	c.Count("traces_validated_against_impl", c.Get("evaluations"))
 	for _, k := range []string{"sequences_with_fixes", "sequences_with_record_errors", "b_mutations", "split_schedules", "tracks_ok"} {
 		if c.Get(k) == 0 {
@@ -522,6 +569,12 @@ func c19Run(c *engine.Ctx) {
 }
 
 func c19Track(c *engine.Ctx, cs c19Case) {
+	// (the run sets time.Local before its parallel phase; a replay sets it here)
+	if _, off := time.Unix(0, 0).In(time.Local).Zone(); off != cs.Zone {
+		saved := time.Local
+		time.Local = time.FixedZone("verif", cs.Zone)
+		defer func() { time.Local = saved }()
+	}
 	n := len(cs.Track)
 	flat := make([]float64, 0, 5*n)
 	for _, f := range cs.Track {
@@ -529,7 +582,12 @@ func c19Track(c *engine.Ctx, cs c19Case) {
 	}
 	t0 := time.Unix(int64(cs.Track[0][3]), 0).UTC()
 	fail := func(what, desc string) {
-		c.Violate("roundtrip/"+what, fmt.Sprintf("%s; track %v (first fix at %s)", desc, cs.Track, t0.Format(time.RFC3339)), "c19", cs)
+		zone := ""
+		if cs.Zone != 0 {
+			zone = fmt.Sprintf(" with the local time zone %+d s from UTC", cs.Zone)
+			what += "/local-zone"
+		}
+		c.Violate("roundtrip/"+what, fmt.Sprintf("%s; track %v (first fix at %s)%s", desc, cs.Track, t0.Format(time.RFC3339), zone), "c19", cs)
 	}
 	var buf bytes.Buffer
 	var err error
